@@ -29,7 +29,7 @@ for d in sorted(glob.glob('/verif/seeded/C*-*')):
             "result": confirm,
             "ok": ok,
         },
-        "checks_run": ("selftest.sh (scratch copy of /repo + harness): the own check and the two broad checks C07 and C11 only" if st.startswith("## round 5") or st.startswith("## round 6") else "selftest.sh (scratch copy of /repo + harness, every quick check)"),
+        "checks_run": ("selftest.sh (scratch copy of /repo + harness): the own check and the two broad checks C07 and C11 only" if st.startswith("## round 5") or st.startswith("## round 6") or st.startswith("## round 7") else "selftest.sh (scratch copy of /repo + harness, every quick check)"),
         "caught_by": caught,
     }
     json.dump(meta, open(d + '/meta.json', 'w'), indent=1)
@@ -41,7 +41,7 @@ for d in sorted(glob.glob('/verif/seeded/C*-*')):
     if note:
         col += ' (' + note.replace('|', '/') + ')'
     rows.append((name, am.get("summary", "")[:150].replace('|', '/'), col, 'yes' if ok else 'NO'))
-print('Rounds 1-4: every quick check was run against each change. Rounds 5 and 6 (`-r5-`, `-r6-`): the own check, C07 and C11 only (plus further checks where a `selftest-extra.txt` is present).\n')
+print('Rounds 1-4: every quick check was run against each change. Rounds 5 to 7 (`-r5-`, `-r6-`, `-r7-`): the own check, C07 and C11 only (plus further checks where a `selftest-extra.txt` is present).\n')
 print('| seeded change | what it does | caught by (quick tier) | confirmed |')
 print('|---|---|---|---|')
 for r in rows: print('| %s | %s | %s | %s |' % r)
